@@ -45,3 +45,37 @@ Print Assumptions C01_buffers_refine_run.
 Theorem C01_laws_inhabited : Laws K8Ops.
 Proof. exact K8Laws. Qed.
 Print Assumptions C01_laws_inhabited.
+
+(* the slicing kernels (`_apply_unitary_` fast paths) equal the matrix action of the documented matrix at
+   exponent 1 with global-shift factor p, on any axis of any tensor *)
+From VF Require Import Gates.GateSpecs Sim.Kernels Sim.KernelProofs.
+Theorem C01_kernel_X_sound : forall K (O : Ops K), Laws O -> forall p a (psi : tensor (K:=K)) i,
+  a < length i -> get i a < 2 ->
+  kernel_X O p a psi i = apply O (mat_of O [2] (spec_XPow O (ki O) (kopp O (ki O)) p)) [2] [a] psi i.
+Proof. exact @kernel_X_sound. Qed.
+Print Assumptions C01_kernel_X_sound.
+Theorem C01_kernel_Y_sound : forall K (O : Ops K), Laws O -> forall p a (psi : tensor (K:=K)) i,
+  a < length i -> get i a < 2 ->
+  kernel_Y O p a psi i = apply O (mat_of O [2] (spec_YPow O (ki O) (kopp O (ki O)) p)) [2] [a] psi i.
+Proof. exact @kernel_Y_sound. Qed.
+Print Assumptions C01_kernel_Y_sound.
+Theorem C01_kernel_Z_sound : forall K (O : Ops K), Laws O -> forall p a (psi : tensor (K:=K)) i,
+  a < length i -> get i a < 2 -> forall r rc,
+  kernel_Z O (kmul O r r) p a psi i = apply O (mat_of O [2] (spec_ZPow O r rc p)) [2] [a] psi i.
+Proof. exact @kernel_Z_sound. Qed.
+Print Assumptions C01_kernel_Z_sound.
+Theorem C01_kernel_H_sound : forall K (O : Ops K), Laws O -> forall p a (psi : tensor (K:=K)) i,
+  a < length i -> get i a < 2 ->
+  kernel_H O p a psi i = apply O (mat_of O [2] (spec_HPow O (ki O) (kopp O (ki O)) p)) [2] [a] psi i.
+Proof. exact @kernel_H_sound. Qed.
+Print Assumptions C01_kernel_H_sound.
+Theorem C01_kernel_CZ_sound : forall K (O : Ops K), Laws O -> forall p a0 a1 (psi : tensor (K:=K)) i,
+  a0 < length i -> a1 < length i -> a0 <> a1 -> get i a0 < 2 -> get i a1 < 2 -> forall r rc,
+  kernel_CZ O (kmul O r r) p a0 a1 psi i = apply O (mat_of O [2; 2] (spec_CZPow O r rc p)) [2; 2] [a0; a1] psi i.
+Proof. exact @kernel_CZ_sound. Qed.
+Print Assumptions C01_kernel_CZ_sound.
+Theorem C01_kernel_CX_sound : forall K (O : Ops K), Laws O -> forall p a0 a1 (psi : tensor (K:=K)) i,
+  a0 < length i -> a1 < length i -> a0 <> a1 -> get i a0 < 2 -> get i a1 < 2 ->
+  kernel_CX O p a0 a1 psi i = apply O (mat_of O [2; 2] (spec_CXPow O (ki O) (kopp O (ki O)) p)) [2; 2] [a0; a1] psi i.
+Proof. exact @kernel_CX_sound. Qed.
+Print Assumptions C01_kernel_CX_sound.
